@@ -66,6 +66,7 @@ class StoreProbe(object):
         self.dropped = []          # (arg0, arg1) of CLSE packets that put() did not keep because the pair had no entry (K1)
         self.dropped_other = []    # CLSE packets lost although the pair had an entry: never forgiven
         self.lock_issues = []
+        self.parked = 0            # packets that a reader put into the store for another stream (evidence that streams collided)
         self.orig = {}
         probe = self
         for name in ('find', 'find_allow_zeros', 'get', 'put', 'clear', 'clear_all'):
@@ -84,6 +85,8 @@ class StoreProbe(object):
                     except AttributeError:
                         had_entry = None
                 r = _orig(store, *a)
+                if _name == 'put' and store is probe.io._packet_store:
+                    probe.parked += 1
                 if _name == 'put' and a[2] == b'CLSE' and store is probe.io._packet_store:
                     try:
                         q = store._dict.get(a[1], {}).get(a[0])
@@ -205,9 +208,9 @@ def run_threads(params, ch):
         if sc.verdict and sc.verdict.startswith('error'):
             raise HarnessError(sc.verdict)
         dev = [c for c in ch.choices if c]
-        return {'outcome': (tuple(r if not (isinstance(r, tuple) and r[0] == 'ok') else 'ok' for r in results), bool(k1), sc.verdict), 'viol': viol,
+        return {'outcome': (tuple(r if not (isinstance(r, tuple) and r[0] == 'ok') else 'ok' for r in results), bool(k1), sc.verdict, min(probe.parked, 4)), 'viol': viol,
                 'states': sc.states, 'trans': sc.steps, 'nontrivial': (params['scenario'], params.get('trace', 0), tuple(ch.choices)) if dev else None,
-                'extra': {'preemptive_switches': sc.preemptions, 'k1_trigger_executions': 1 if probe.dropped else 0},
+                'extra': {'preemptive_switches': sc.preemptions, 'k1_trigger_executions': 1 if probe.dropped else 0, 'packets_parked_for_another_stream': probe.parked},
                 'sample': {'scenario': params['scenario'], 'trace_level': params.get('trace', 0), 'scheduling_points': sc.steps, 'preemptions': sc.preemptions, 'thread_switches': sc.switches,
                            'results': [r[0] if isinstance(r, tuple) else r for r in results], 'clse_dropped_for': probe.dropped}}
     finally:
@@ -285,7 +288,7 @@ def run_tasks(params, ch):
         s.env.clse_lost_with_entry = list(probe.dropped_other)
         k1 = judge(s, ops, results, verdict, probe.dropped, [], viol)
         dev = [c for c in ch.choices if c]
-        return {'outcome': (tuple(r if r[0] != 'ok' else 'ok' for r in results), bool(k1), verdict), 'viol': viol, 'states': states, 'trans': loop.steps,
+        return {'outcome': (tuple(r if r[0] != 'ok' else 'ok' for r in results), bool(k1), verdict, min(probe.parked, 4)), 'viol': viol, 'states': states, 'trans': loop.steps,
                 'nontrivial': (params['scenario'], 'async', tuple(ch.choices)) if dev else None, 'extra': {'k1_trigger_executions': 1 if probe.dropped else 0},
                 'sample': {'scenario': params['scenario'], 'twin': 'async', 'loop_steps': loop.steps, 'io_completions_chosen': loop.io_choices, 'results': [r[0] for r in results],
                            'clse_dropped_for': probe.dropped}}
